@@ -297,7 +297,7 @@ func runAuth(v *AuthVec) (rec ev.M) {
 		t1 := time.Now()
 		r, now := ask()
 		q = ev.M{"done": true, "r": r, "now": now, "ms": int(time.Since(t1).Milliseconds())}
-		if v.Drop && r == "ok" {
+		if v.Drop && r != "hang" && r != "panic" {
 			// the server has reset the connection; the client is expected to come back by itself
 			t2 := time.Now()
 			for time.Since(t2) < time.Duration(v.Within)*time.Millisecond {
